@@ -404,6 +404,26 @@ def rule_column_order(F, ev, R, config, rule="R-COLUMN-ORDER"):
                 elif a[0] == "opt":
                     for x in (a[1][1] if a[1][0] == "phi" else (a[1],)):
                         rets.add(nosite(cn.container(x)))
+            # every success return hands out the FILLED matrix: an `Ok` of a freshly allocated matrix that nothing was written
+            # into (an early `return Ok(zeros(..))`) skips the checked evaluations — unless there is no function to evaluate
+            g = Guards(ev2, b, env)
+            bare = []
+            for bi, si, st in b.stmts():
+                if st["k"] != "assign" or st["place"]["l"] != 0 or st["place"]["proj"]:
+                    continue
+                v = ev2.rvalue(env, st["rv"], (bi, si))
+                pay = v[3][0][1] if v[0] == "agg" and v[2] == "Ok" and v[3] else (v[1] if v[0] == "opt" else None)
+                if pay is None or pay[0] != "call" or tab.alloc_dims(pay) is None:
+                    continue
+                rels, _raw = g.relations_at(bi)
+                nofn = False
+                for rel in rels:
+                    if rel[0] == "Eq" and {cn.norm_extent(cn.canon(rel[1])), cn.norm_extent(cn.canon(rel[2]))} == {("len", FN), ("const", "usize", 0)}:
+                        nofn = True
+                if not nofn:
+                    bare.append((bi, pay))
+            R.add(rule, config, b.key, "Ok returns the filled matrix", not bare, "" if not bare else
+                  "a success return hands out the freshly allocated `%s` — no function is evaluated (and checked) on this path" % short(bare[0][1])[:100], b.j["span"])
             cw = [w for w in tab.column_writes(cn, effs) if nosite(w.D) in rets]
             if not cw:
                 # the checking helper may write the function value straight into the column it is given, element by
